@@ -22,8 +22,8 @@ if REPO not in sys.path:
 
 IDIOMS = ['Goto', 'GotoReg', 'Branch', 'BranchBool', 'BoolNormalise', 'Guard', 'GuardEntry', 'GuardVla',
           'Undo', 'PreemptStatic', 'PreemptVirtual', 'Speculation', 'SpeculationNoMov', 'DefeatVirtual',
-          'DefeatVirtualCond', 'StopInstall', 'ReturnProtection']
-SEQUENTIAL = {'Goto', 'GotoReg', 'Branch', 'BranchBool', 'BoolNormalise', 'Guard', 'GuardEntry', 'GuardVla'}
+          'DefeatVirtualCond', 'StopInstall', 'ReturnProtection', 'Call']
+SEQUENTIAL = {'Goto', 'GotoReg', 'Branch', 'BranchBool', 'BoolNormalise', 'Guard', 'GuardEntry', 'GuardVla', 'Call'}
 FEATURES = ['arrays', 'strings', 'calls', 'globals', 'overloads', 'tt']
 # the cone of the recogniser (everything before it is built by `make`); compiled only when stale
 COQ_FILES = ['Sphinx/Patterns.v', 'Extract/ExtractPatterns.v']
@@ -106,7 +106,7 @@ def driver_text(prog, ident):
 
 
 def classify_batch(exe, texts):
-    """-> list of (counts[17], sequential:bool, [unclassified pcs])"""
+    """-> list of (counts[len(IDIOMS)], sequential:bool, [unclassified pcs])"""
     p = subprocess.run([exe], input=''.join(texts), capture_output=True, text=True, timeout=1800)
     out = [l for l in p.stdout.split('\n') if l]
     if p.returncode != 0 or len(out) != len(texts):
@@ -115,7 +115,8 @@ def classify_batch(exe, texts):
     for line in out:
         head, _, bad = line.partition('|')
         f = head.split()
-        res.append(([int(x) for x in f[1:18]], f[18] == '1', [int(x) for x in bad.split()]))
+        n = len(IDIOMS)
+        res.append(([int(x) for x in f[1:1 + n]], f[1 + n] == '1', [int(x) for x in bad.split()]))
     return res
 
 
